@@ -143,6 +143,20 @@ func (r *R) TimeNs() int64 {
 func UnixNs(ns int64) time.Time { return time.Unix(0, ns) }
 
 // Parallel runs f(0..n-1) on up to workers goroutines (0 = number of CPUs, capped at 12).
+// abortFlag is set by the first violation that is not a known finding: the run will exit 1 whatever
+// the remaining cases show, and on a broken tree every further case may cost a full reply timeout
+// (VERIF_KEEP_GOING=1 explores on).
+var abortFlag int32
+
+// Aborted reports whether the remaining cases of this run are skipped.
+func Aborted() bool { return atomic.LoadInt32(&abortFlag) != 0 }
+
+func setAborted() {
+	if os.Getenv("VERIF_KEEP_GOING") == "" {
+		atomic.StoreInt32(&abortFlag, 1)
+	}
+}
+
 func Parallel(n, workers int, f func(i int)) {
 	if s := os.Getenv("VERIF_CASE"); s != "" {
 		// replay a single case
@@ -165,7 +179,7 @@ func Parallel(n, workers int, f func(i int)) {
 			defer wg.Done()
 			for {
 				i := int(atomic.AddInt64(&next, 1))
-				if i >= n {
+				if i >= n || Aborted() {
 					return
 				}
 				f(i)
